@@ -1682,16 +1682,22 @@ func resolveIndex(v, index reflect.Value, indexAsStr string) (reflect.Value, err
 		}
 
 		if id, ok := cache[key]; ok {
-			field := v.FieldByIndex(id)
+			field, err := fieldByIndex(v, id)
+			if err != nil {
+				return reflect.Value{}, err
+			}
 			return indirectEface(field), nil
 		}
 
 		// Slow path: use reflect directly
 		tField, ok := typ.FieldByName(key)
 		if ok {
-			field := v.FieldByIndex(tField.Index)
 			if tField.PkgPath != "" { // field is unexported
 				return reflect.Value{}, fmt.Errorf("%s is an unexported field of struct type %s", indexAsStr, v.Type())
+			}
+			field, err := fieldByIndex(v, tField.Index)
+			if err != nil {
+				return reflect.Value{}, err
 			}
 			return indirectEface(field), nil
 		}
@@ -1741,6 +1747,21 @@ func indexArg(index reflect.Value, cap int) (int, error) {
 		return 0, fmt.Errorf("index out of range: %d", x)
 	}
 	return int(x), nil
+}
+
+// fieldByIndex is reflect.Value.FieldByIndex returning an error instead of panicking
+// when the path to a promoted field leads through a nil embedded pointer.
+func fieldByIndex(v reflect.Value, index []int) (reflect.Value, error) {
+	for i, x := range index {
+		if i > 0 && v.Kind() == reflect.Ptr {
+			if v.IsNil() {
+				return reflect.Value{}, fmt.Errorf("nil pointer to embedded struct %s", v.Type().Elem())
+			}
+			v = v.Elem()
+		}
+		v = v.Field(x)
+	}
+	return v, nil
 }
 
 func buildCache(typ reflect.Type, cache map[string][]int, parent []int) {
